@@ -7,7 +7,7 @@ Input : `(timeout (stop …) broken suppress store nObs setUp body tearDown [rea
         stage = `((stage …) (side …) beh)` (the cleanups it registers at its start, its side effects, its behaviour),
         side = `(junk d)` | `logerr` | `dropfailed` | `flush` | `expect`,
         beh = `ret` | `(raise k)` | `(fire d)` | `(faild d k)` | `never`, k = `err` | `fail` | `skip` | `ki` | `exit`
-Trace : `((ev …) stopRequested raised ((name t observers) …) leftover pending obsRestored realStops finalTime)`,
+Trace : `((ev …) stopRequested raised ((name t observers) …) (live …) leftover pending obsRestored realStops finalTime)`,
         name = `setUp` | `body` | `tearDown` | `(cleanup i)`, ev = `startTest` | `success` | `error` | `failure` | `skip` | `stopTest` -/
 namespace TTV.Drv.C14
 open TTV TTV.Sexp TTV.AsyncRun
@@ -68,13 +68,14 @@ def logEntry? : Sexp → Option (SName × Nat × Nat)
 def ofLogEntry (e : SName × Nat × Nat) : Sexp := .list [ofSName e.1, ofNat e.2.1, ofNat e.2.2]
 
 def trace? : Sexp → Option Trace
-  | .list [evs, sr, ra, st, lo, pe, ob, rs, ft] => do
+  | .list [evs, sr, ra, st, lv, lo, pe, ob, rs, ft] => do
       some { events := ← list? ev? evs, stopRequested := ← bool? sr, raised := ← bool? ra, stages := ← list? logEntry? st,
-             leftover := ← nat? lo, pending := ← nat? pe, obsRestored := ← bool? ob, realStops := ← nat? rs,
+             live := ← list? bool? lv, leftover := ← nat? lo, pending := ← nat? pe, obsRestored := ← bool? ob, realStops := ← nat? rs,
              finalTime := ← nat? ft }
   | _ => none
 def ofTrace (t : Trace) : Sexp :=
-  .list [ofList ofEv t.events, ofBool t.stopRequested, ofBool t.raised, ofList ofLogEntry t.stages, ofNat t.leftover,
+  .list [ofList ofEv t.events, ofBool t.stopRequested, ofBool t.raised, ofList ofLogEntry t.stages, ofList ofBool t.live,
+         ofNat t.leftover,
          ofNat t.pending, ofBool t.obsRestored, ofNat t.realStops, ofNat t.finalTime]
 
 def drv : PropDrv Prog Trace :=
